@@ -104,7 +104,7 @@ def real(hooks, f):
 
 
 ORACLE_TOKENS = {"vk_from_string": 2, "vk_from_public_point": 1, "vk_from_der": 2, "vk_from_pem": 2, "sk_from_secexp": 1,
-                 "sk_from_string": 1, "sk_from_der": 1, "sk_from_pem": 1, "point_is_valid": 1}
+                 "sk_from_string": 1, "sk_from_der": 1, "sk_from_pem": 1, "point_is_valid": 1, "ecdh_load": 3}
 
 
 def model_line(line):
